@@ -22,7 +22,7 @@ func inputClass(s rig.ConnScript) string {
 func execE2E(t *testing.T, s rig.ConnScript) *vstat.Violation {
 	var res *rig.ConnResult
 	msg := rig.Bubble(t, func() {
-		p := rig.StartProxy(rig.DefaultProxyOpts(s.Custom))
+		p := rig.StartProxy(rig.ProxyOptsFor(s))
 		res = rig.RunConn(p, s, "c01")
 		p.Stop()
 	})
